@@ -67,7 +67,8 @@ def gen_schema(rng, depth=0):
         elif r < 0.62:
             out.append(decl(nm, "func", fn="user"))
         elif r < 0.70:
-            out.append(decl(nm, "sec", {"KEYSTRVAL"}))
+            # a free-form section; its declared sub-sections are free-form too
+            out.append(decl(nm, "sec", {"KEYSTRVAL"}, sub=gen_schema(rng, depth + 1) if depth < 2 and rng.random() < 0.4 else ()))
         else:
             kind = rng.choice([set(), {"MULTI"}, {"MULTI", "TITLE"}, {"MULTI", "TITLE", "NO_TITLE_DUPES"}])
             out.append(decl(nm, "sec", kind, sub=gen_schema(rng, depth + 1), cb={"valid"} if rng.random() < 0.15 else ()))
@@ -130,7 +131,7 @@ def gen_items(rng, decls, pcfg, depth=0, kv=False):
             head = [T("str", d["name"])]
             if "TITLE" in d["flags"]:
                 head.append(T("str", rng.choice(TITLES)))
-            toks += head + [T("{")] + gen_items(rng, d["sub"], pcfg, depth + 1, "KEYSTRVAL" in d["flags"]) + [T("}")]
+            toks += head + [T("{")] + gen_items(rng, d["sub"], pcfg, depth + 1, kv or "KEYSTRVAL" in d["flags"]) + [T("}")]
         elif "LIST" in d["flags"]:
             op = rng.choice(["=", "=", "+="])
             if rng.random() < 0.25:
